@@ -11,7 +11,7 @@ class _RL(dict):
 UNIT_RLIMIT = _RL({"div_small": 80, "mul_redc": 80})      # unit -> --rlimit (Verus default is 10; 5x head-room over the measured maximum)
 UNIT_TIMEOUT = {"knuth": 1500, "addmul": 900}     # unit -> seconds
 UNIT_EXPECT = {       # unit -> minimum number of verified functions on the unchanged tree (vacuity guard)
-    "core": 31, "add": 29, "kernels": 79, "addmul": 71, "addmul_n": 73, "mul": 51, "divd": 45, "div_small": 235, "knuth": 145, "mul_redc": 69, "basics": 22, "pow": 38, "divw": 54, "modular": 51, "spigot": 44, "gcd": 21,
+    "core": 31, "add": 29, "kernels": 79, "addmul": 71, "addmul_n": 73, "mul": 51, "divd": 45, "div_small": 235, "knuth": 145, "mul_redc": 69, "basics": 22, "pow": 38, "divw": 54, "modular": 51, "spigot": 44, "gcd": 21, "forward": 57,
 }
 
 COMMON_TRUST = [
@@ -69,7 +69,7 @@ PROPS = {
         level_note="assumed: u64::overflowing_add/sub specifications (cross-checked full-domain by Kani), the extraction normalisations, the tools; "
                    "Sum/iterator fold only bounded (<= 3 elements); operator impls are checked per width by Kani, not by Verus",
         technique="deductive contracts (Verus, all widths) + Kani per-width contract harnesses with replayed counterexamples",
-        units=["core", "add"],
+        units=["core", "add", "forward"],
         kani=dict(
             features=None,
             quick=["c01::c01_arith_" + w for w in ["w0", "w1", "w60", "w64", "w65", "w128"]] + ["c01::c01_sum_w65"],
@@ -116,7 +116,7 @@ PROPS = {
         level_note="assumed: add_nx1's contract (Kani per length), slice-length axiom, core integer specs; NOT decided: inv_ring for BITS > 8 (Wrapping<u64> Newton block and the operator-based lifting loop are "
                    "outside the Verus units; Kani: BITS 1, 8 (16 in thorough)), Product beyond 2 elements, the Mul/MulAssign operator impls (macro-generated forwards to wrapping_mul; checked by Kani for add/sub only)",
         technique="deductive contracts (Verus, all widths) over the real multiplication code; Kani for inv_ring/Product at tiny widths",
-        units=["core", "kernels", "addmul", "addmul_n", "mul"],
+        units=["core", "kernels", "addmul", "addmul_n", "mul", "forward"],
         kani=dict(
             features=None,
             quick=["c02::c02_inv_ring_cond_w0", "c02::c02_inv_ring_w1", "c02::c02_inv_ring_w8", "c02::c02_product_w8", "c02::c02_mulc_zero_w128", "c02::c02_mulc_zero_w65", "c02::c02_mulc_zero_w192"],
@@ -187,7 +187,7 @@ PROPS = {
         level_note="the whole chain div_rem -> div -> div_nx1/nx2/nxm -> div_2x1/3x2 -> reciprocal_2 is proved; the only ASSUMED kernel body is reciprocal_mg10 (see C14); operator forms / and % are assumed to forward to wrapping_div/rem (C20); "
                    "'zero divisor panics' is a Kani should_panic obligation per width (c03p), 'non-zero divisor never panics' is the Verus no-panic obligation under d != 0",
         technique="deductive contracts (Verus, all widths) + Kani should_panic/None harnesses per width",
-        units=["core", "basics", "add", "mul", "kernels", "addmul", "addmul_n", "div_small", "knuth", "divd", "divw"],
+        units=["core", "basics", "add", "mul", "kernels", "addmul", "addmul_n", "div_small", "knuth", "divd", "divw", "forward"],
         kani=dict(features=None, quick=hs("c03p", None, r"_w8_|divrem_w8"), thorough=hs("c03p"), bounds="widths 1, 64, 65 for the zero-divisor clauses; 8-bit exhaustive division"),
         explanation="the property's sentences are postconditions of the Uint methods; r < d and n = q*d + r give q = floor(n/d) by lemma_euclid",
         trusted=COMMON_TRUST,
@@ -290,5 +290,21 @@ PROPS = {
         explanation="invariant gcd(a, b) = gcd(a0, b0), a >= b; decreases b",
         trusted=COMMON_TRUST,
         not_decided=["Lehmer matrix construction (matrix.rs)", "gcd_extended / inv_mod / lcm above 8 bits"],
+    ),
+    "C20": dict(
+        level="proof",
+        level_text="Verus proves, for ALL widths at once, that the 30 operator impls generated by impl_bin_op! (Add/Sub/Mul/Div/Rem x {value, reference} operands and both compound-assignment forms) and 26 num-traits facade methods "
+                   "(Checked*, Wrapping*, Overflowing*, Saturating*, Euclid) forward to the right inherent method with the right arguments in the right order: the bodies are re-extracted from the macro-expanded crate "
+                   "(rustc -Zunpretty=expanded) on every run and checked against uninterpreted spec functions of the inherent methods; Kani adds per-width equality for the Bits wrapper, the remaining num-traits / num-integer "
+                   "methods, the subtle constant-time forms and zeroize",
+        level_note="macro expansion is rustc's (trusted); N15 places trait-impl methods in an inherent impl under mangled names; commutative operations accept either argument order; NOT under Verus: Bits wrapper, bit-op / shift "
+                   "operator families (Kani per width in C05/C06), PrimInt/ToPrimitive/FromPrimitive, num-integer, subtle (Kani per width, expensive ones only at 7-8 bits); known finding: subtle bit_ct panics for index >= BITS",
+        technique="deductive forwarding contracts over uninterpreted spec functions (Verus, all widths) + Kani per-width equality harnesses",
+        units=["forward"],
+        kani=dict(features="facades", quick=hs("c20", None, r"^c20::kf_"), thorough=hs("c20", None, r"^c20::kf_"), bounds="see kani/src/c20.rs"),
+        known_findings={"subtle_bit_ct_out_of_range": ["c20::kf_c20_subtle_bit_ct_out_of_range_w65"]},
+        explanation="a swapped argument, a forward to the wrong variant or *self vs *other breaks r == spec_m(args)",
+        trusted=COMMON_TRUST + ["rustc macro expansion (-Zunpretty=expanded)"],
+        not_decided=["Bits wrapper, PrimInt, ToPrimitive/FromPrimitive, num-integer, subtle: per width only (Kani)"],
     ),
 }
